@@ -203,7 +203,7 @@ Definition r_heading (st : bstate) (startLine endLine : Z) (silent : bool) : res
                          (fun t => map_tok startLine (startLine + 1) (set_markup t mk)) in
         let st3 := bpush st2 s_inline [] 0
                          (fun t => set_children (map_tok startLine (startLine + 1)
-                                                   (set_content t (py_strip (slice (b_src st) p m2)))) (Some [])) in
+                                                   (set_content t (strip_by is_space (slice (b_src st) p m2)))) (Some [])) in
         Ok (true, bpush st3 [104; 101; 97; 100; 105; 110; 103; 95; 99; 108; 111; 115; 101] (hN level) (-1)
                         (fun t => set_markup t mk)).
 
@@ -863,7 +863,7 @@ Fixpoint push_cells (st : bstate) (open_ty close_ty tag : str) (aligns : list st
   | al :: aligns' =>
       let col := match cols with c :: _ => Some c | [] => None end in
       let content := match col with
-                     | Some c => if strip_nonempty then (match c with [] => [] | _ => py_strip c end) else py_strip c
+                     | Some c => if strip_nonempty then (match c with [] => [] | _ => strip_by is_space c end) else strip_by is_space c
                      | None => []
                      end in
       let st1 := bpush st open_ty tag 1 (cell_attrs al) in
